@@ -156,12 +156,16 @@ def get_ast(func):
         return None
     try:
         rawsource = inspect.getsource(code)
-    except (OSError, IOError):
+    except Exception:
+        # OSError: no source; anything the tokenizer raises: the file named
+        # by the code object does not hold its source (any more)
         return None
     source = inspect.cleandoc('\n' + rawsource)
     try:
         module = ast.parse(source)
     except SyntaxError:
+        return None
+    if not module.body:
         return None
     func_ast = module.body[0]
     if not isinstance(func_ast, (ast.FunctionDef, ast.AsyncFunctionDef)):
